@@ -102,6 +102,35 @@ def inject_small(g, rng):
     return None
 
 
+def managed_growth_failure(rng):
+    """x86: a committed byte-sized reference to a fixed external address cannot follow the buffer to another mapping. The growing commit that
+    moves the buffer reports it (Impossible(managed)); everything after that must still work"""
+    PAGE = 4096
+    lines = ["new asm x86"]
+    n0 = rng.range(1, 60)
+    lines.append(f"ex {hexb(rng.bytes(n0))}")
+    lines.append("ex xeb00")
+    lines.append(f"rx @{rng.range(-100, 100)} 1 0 x86.1.2")
+    lines.append(f"ex {hexb(rng.bytes(rng.range(0, 20)))}")
+    lines += ["c", "buf"]
+    for _ in range(rng.range(1, 3)):
+        lines.append(f"ex {hexb(rng.bytes(rng.choice([PAGE, PAGE + 1, 2 * PAGE + 5, 5000])))}")
+        lines += ["c", "buf"]
+        for _ in range(rng.range(1, 4)):
+            c = rng.below(4)
+            if c == 0:
+                lines.append(f"ex {hexb(rng.bytes(rng.range(1, 40)))}")
+                lines += ["c", "buf"]
+            elif c == 1:
+                lines += ["c", "buf", "alter{", f"goto {n0 + 10 + rng.below(20)}", f"ex {hexb(rng.bytes(rng.range(1, 8)))}", "}alter", "buf"]
+            elif c == 2:
+                lines.append(f"ex {hexb(rng.bytes(rng.range(1, 40)))}")
+            else:
+                lines += ["c", "buf"]
+    lines += ["c", "buf"]
+    return lines, {"kind": "managed-growth"}
+
+
 def evaluator(p, res, meta):
     """after the first Err result: nothing panics, the buffer is never found empty/poisoned, and the committed code is intact
     outside what the failing session itself wrote"""
@@ -185,6 +214,10 @@ def check(run):
     progs, metas = [], []
     for _ in range(40000 if thorough else 2500):
         lines, meta = fault_program(rng, rng.choice(["x64", "x86", "a64", "rv"]))
+        progs.append(lines)
+        metas.append(meta)
+    for _ in range(3000 if thorough else 300):
+        lines, meta = managed_growth_failure(rng)
         progs.append(lines)
         metas.append(meta)
     stats = asmprops.process(run, progs, evaluator, metas, chunk=100)
